@@ -186,9 +186,12 @@ def run(ctx):
     rep.guarded("codes", FN + "csi_dispatch", lambda: rule_codes(facts, rep))
     rep.guarded("substate", FN + "csi_dispatch", lambda: rule_substate(facts, rep))
     rep.guarded("emit", FN + "csi_dispatch", lambda: rule_emit(facts, rep))
+    # the driver: every input byte reaches the parser (whose state persists across calls) and the text comes from its callbacks
+    from rules import C03
+    rep.guarded("byte-at-a-time", "anstream::adapter::wincon::next_bytes", lambda: C03.rule_byte_at_a_time(facts, rep))
     from rules import links
     links.parser_under_sgr(facts, rep)   # the runs are only as good as the parser's dispatch of each SGR sequence
-    for r, n in (("codes", 26), ("substate", 33), ("targets", 5), ("emit", 9)):
+    for r, n in (("codes", 26), ("substate", 33), ("targets", 5), ("emit", 9), ("byte-at-a-time", 6)):
         rep.floor(r, n)
 
 
